@@ -114,6 +114,194 @@ theorem C04_marker_owner (s : State) (r : ReqId) (k : KeyId) (mux : Bool) (t : T
   unfold issueMissing
   cases mux <;> simp [hm']
 
+/-- the delivery loop passes over a queue in which nobody is listening, and empties it -/
+theorem pushLoop_skips (t : Token) (c : ConnId) : ∀ (q : List ReqId) (s : State), (∀ r, r ∈ q → s.chan r ≠ .empty) →
+    pushLoop s t c q = ({ s with waiting := upd s.waiting t [] }, false)
+  | [], s, _ => by simp [pushLoop]
+  | r0 :: rest, s, h => by
+    have h0 : s.chan r0 ≠ .empty := h r0 List.mem_cons_self
+    have ih := pushLoop_skips t c rest s (fun r hr => h r (List.mem_cons_of_mem _ hr))
+    simp only [pushLoop]
+    cases hc : s.chan r0 with
+    | empty => exact absurd hc h0
+    | none => simpa using ih
+    | full p => simpa using ih
+    | rxGone => simpa using ih
+    | txGone => simpa using ih
+
+/-- **C04 (a released connection is kept).** A non-shareable connection handed back for an origin
+    for which nobody is listening, with room in the idle list, becomes the newest idle entry of that
+    origin; it is not dropped. (With a listener it goes to the listener instead: `C14_release_serves_a_listener`;
+    that it is only handed back when it is open and ready again: `C02_handback_only_when_ready`.) -/
+theorem C04_released_connection_is_kept (s : State) (t : Token) (c : ConnId)
+    (hns : canShare s c = false) (hnl : ∀ r, r ∈ s.waiting t → s.chan r ≠ .empty)
+    (hroom : (s.idle t).length < s.cfg.maxIdle) :
+    (push s t c).idle t = (c, s.now) :: s.idle t ∧ (push s t c).dropped = s.dropped := by
+  have hcm : clearMarker s t c = s := by unfold clearMarker; simp [hns]
+  unfold push
+  simp only [hcm, pushLoop_skips t c (s.waiting t) s hnl]
+  simp [hroom]
+
+/-- **C04 (a request cancelled before it used its connection gives it back).** The connection a
+    checkout took out of the pool and never handed out goes through `push` again when the checkout is
+    dropped, if it is still open (and it never left the pool if it can be shared) … -/
+theorem C04_cancel_returns_unused (s : State) (r : ReqId) (c : Checkout) (cid : ConnId)
+    (hcn : c.conn = some cid) (hop : isOpenC s cid = true) (hns : canShare s cid = false) :
+    returnUnused (takeConn s r c) c = push (takeConn s r c) c.token cid := by
+  have h1 : isOpenC (takeConn s r c) cid = true := by unfold takeConn isOpenC at *; exact hop
+  have h2 : canShare (takeConn s r c) cid = false := by unfold takeConn canShare at *; exact hns
+  unfold returnUnused
+  simp [hcn, h1, h2]
+
+/-! ### nothing but a poll of a dialing checkout calls the transport -/
+
+theorem spawn_dials (s : State) (t : Task) : (spawn s t).dialCount = s.dialCount := rfl
+
+theorem dropPooled_dials (s : State) (p : Pooled) : (dropPooled s p).dialCount = s.dialCount := by
+  unfold dropPooled; split <;> rfl
+
+theorem dropRx_dials (s : State) (r : ReqId) : (dropRx s r).dialCount = s.dialCount := by
+  unfold dropRx; split
+  · rw [dropPooled_dials]
+  · rfl
+  · rfl
+
+theorem pushLoop_dials (t : Token) (c : ConnId) : ∀ (q : List ReqId) (s : State), (pushLoop s t c q).1.dialCount = s.dialCount
+  | [], _ => by simp [pushLoop]
+  | r0 :: rest, s => by
+    simp only [pushLoop]
+    split
+    · split
+      · rw [pushLoop_dials t c rest]
+      · rfl
+    · exact pushLoop_dials t c rest s
+
+theorem push_dials (s : State) (t : Token) (c : ConnId) : (push s t c).dialCount = s.dialCount := by
+  unfold push
+  simp only []
+  have h0 : (clearMarker s t c).dialCount = s.dialCount := by unfold clearMarker; split <;> rfl
+  have h1 := pushLoop_dials t c ((clearMarker s t c).waiting t) (clearMarker s t c)
+  generalize pushLoop (clearMarker s t c) t c ((clearMarker s t c).waiting t) = pl at h1
+  obtain ⟨x1, d⟩ := pl
+  simp only [] at h1 ⊢
+  split
+  · rw [h1, h0]
+  · split
+    · show x1.dialCount = _; rw [h1, h0]
+    · split
+      · rw [h1, h0]
+      · show x1.dialCount = _; rw [h1, h0]
+
+theorem dropSenders_dials : ∀ (l : List ReqId) (s : State), (dropSenders s l).dialCount = s.dialCount
+  | [], _ => rfl
+  | r0 :: rest, s => by
+    simp only [dropSenders]
+    rw [dropSenders_dials rest]
+    split <;> rfl
+
+theorem cancelIfOwner_dials (s : State) (c : Checkout) : (cancelIfOwner s c).dialCount = s.dialCount := by
+  unfold cancelIfOwner cancelConnection
+  split
+  · split
+    · show (dropSenders _ _).dialCount = _
+      rw [dropSenders_dials]
+    · rfl
+  · rfl
+
+theorem returnUnused_dials (s : State) (c : Checkout) : (returnUnused s c).dialCount = s.dialCount := by
+  unfold returnUnused
+  split
+  · split
+    · rw [push_dials]
+    · split <;> rfl
+  · rfl
+
+/-- dropping a checkout – cancelling a request, or the end of a poll that resolved – calls no transport -/
+theorem dropCheckout_dials (s : State) (r : ReqId) : (dropCheckout s r).dialCount = s.dialCount := by
+  unfold dropCheckout
+  cases hco : s.co r with
+  | none => rfl
+  | some c =>
+    simp only []
+    split
+    · rfl
+    · have h1 : (returnUnused (takeConn s r c) c).dialCount = s.dialCount := by rw [returnUnused_dials]; rfl
+      split
+      · show (dropRx (spawn (returnUnused (takeConn s r c) c) (.delayed r)) r).dialCount = _
+        rw [dropRx_dials, spawn_dials, h1]
+      · show (dropRx (cancelIfOwner (returnUnused (takeConn s r c) c) c) r).dialCount = _
+        rw [dropRx_dials, cancelIfOwner_dials, h1]
+
+/-- **C04 (cancelling causes no dial).** Cancelling a request – before its first poll, while it waits,
+    while it dials, or after it was given a connection –, a response arriving, a connection becoming
+    ready or being closed by the peer, the outcome of a dial, the passing of time and the issue of a
+    request never call the transport: `dialCount` only moves in `poll` and in `run` (the first poll of a
+    dialing checkout, `startDial`, once per request). -/
+theorem C04_only_polls_dial (s : State) (op : Op) (hp : ∀ r, op ≠ .poll r) (hr : op ≠ .run) :
+    (step s op).1.dialCount = s.dialCount := by
+  cases op with
+  | poll r => exact absurd rfl (hp r)
+  | run => exact absurd rfl hr
+  | issue r k mux =>
+    simp only [step]
+    cases hco : s.co r with
+    | some _ => rfl
+    | none =>
+      simp only []
+      unfold issue
+      have h0 : (tokenOf s k).1.dialCount = s.dialCount := by unfold tokenOf; split <;> rfl
+      generalize tokenOf s k = tk at h0
+      obtain ⟨s0, t⟩ := tk
+      simp only [] at h0 ⊢
+      cases hpop : (idlePop s0 (s0.idle t)).1 with
+      | none =>
+        simp only []
+        unfold issueMissing
+        simp only []
+        split
+        · exact h0
+        · split <;> exact h0
+      | some c =>
+        simp only []
+        unfold issueFound
+        simp only []
+        split <;> exact h0
+  | cancel r =>
+    simp only [step]
+    cases hh : s.held r with
+    | some p => simp only []; rw [dropPooled_dials]
+    | none =>
+      simp only []
+      cases hco : s.co r with
+      | none => rfl
+      | some c =>
+        simp only []
+        split
+        · exact dropCheckout_dials s r
+        · rfl
+  | dialDone r o =>
+    simp only [step]
+    split <;> rfl
+  | finish r =>
+    simp only [step]
+    cases hh : s.held r with
+    | some p => simp only []; rw [dropPooled_dials]
+    | none => rfl
+  | connReady c =>
+    simp only [step]
+    split
+    · show (setConn s c _).dialCount = _
+      unfold setConn; split <;> rfl
+    · rfl
+  | connClose c =>
+    simp only [step]
+    split
+    · show (setConn s c _).dialCount = _
+      unfold setConn; split <;> rfl
+    · rfl
+  | tick ms => rfl
+  | mark => rfl
+
 /-! ## Reachable-state theorem (from the invariant of `Lemmas/PoolMarker.lean`) -/
 
 /-- **C04 (one HTTP/2 attempt per origin at a time), over all reachable states.** While the
